@@ -282,7 +282,8 @@ def deps_field(n):
 # R17.1
 # ------------------------------------------------------------------------------------------------
 
-@RULES.rule("R17.1", "every dependency source reaches the deps set and every callback; depfile written from deps", floor=18)
+@RULES.rule("R17.1", "every dependency source reaches the deps set and every callback; depfile written from deps",
+            floor=17)  # 19 on the pinned tree; two of them are incidental `deps:reader` sites (Debug impl, getter)
 def r17_1(rep):
     """Necessary: a file that influenced the bindings must be in `deps` *and* announced.
     Breaking edits: drop `ctx.add_dep(..)` from the InclusionDirective arm (depfile misses every
@@ -601,6 +602,9 @@ EXCEPTIONS = {
         ("inert", "only selects the rustfmt executable that pretty-prints the token stream after generation"),
     ("CARGO_CFG_TARGET_ARCH", "diagnostics::Diagnostic::display"):
         ("inert", "only chooses between `cargo:warning=` and stderr for bindgen's own diagnostics"),
+    ("CARGO_CFG_TARGET_ARCH", "features::RustTarget::default"):
+        ("inert", "cargo-owned, presence-only gate (\"am I running inside a build script?\") for the rustc version probe; "
+                  "cargo re-runs build scripts itself when the target changes"),
     ("TARGET", "find_effective_target"):
         ("announced", "read again after `get_target_dependent_env_var` announced `TARGET` in `Builder::generate`"),
 }
@@ -745,13 +749,18 @@ def r17_2(rep):
                 callee = c.get("resolved") or c.get("callee")
                 callers.setdefault(callee, []).append((b2, c))
         # walk up single-caller chains from the reader until a function that announces first
-        cur, hops = b.path, 0
+        cur, hops, trail = b.path, 0, []
         while hops < 6:
             hops += 1
             cs = callers.get(cur, [])
+            if not cs:
+                detail = "no unconditional announcement of `%s` precedes the read on the way down from `%s` (%s)" % (
+                    var, owner_name(prog, prog.bodies[cur]) if cur in prog.bodies else cur, " <- ".join(trail))
+                break
             if len(cs) != 1:
                 detail = "`%s` has %d callers; cannot show that `%s` was announced before each" % (cur, len(cs), var)
                 break
+            trail.append(owner_name(prog, cs[0][0]))
             b2, c = cs[0]
             pre = [x for x in b2.calls() if (x.get("resolved") or x.get("callee")) in ann and x["_i"] < c["_i"]
                    and all(g in b2.guards(c) for g in b2.guards(x)) and not any(a["k"] == "Closure" for a in b2.ancestors(x))]
@@ -964,7 +973,7 @@ def escape_semantics(b, root, pid):
     return None, "neither a `str::replace` chain on the parameter nor a per-character match"
 
 
-@RULES.rule("R17.3", "depfile text: target and every dependency escaped; backslash before space", floor=9)
+@RULES.rule("R17.3", "depfile text: target and every dependency escaped; backslash before space", floor=12)
 def r17_3(rep):
     """Necessary: `make` must parse the depfile back to the same paths.
     Breaking edits: `escape` = `s.replace(' ', "\\ ").replace('\\', "\\\\")` turns `a b.h` into
@@ -1052,8 +1061,10 @@ def r17_3(rep):
         for r in kinds:
             if r.startswith("raw") or r.startswith("reformatted"):
                 what = "the target" if "target" in r else ("a dependency" if "dep" in r else "`%s`" % r.split(":", 1)[-1])
+                how_txt = "formatted with something else than plain `{}` (Display), which alters the escaped text" \
+                    if r.startswith("reformatted") else "written to the depfile without `escape`"
                 rep.bad("escape-applied:" + ("target" if "target" in r else "dep" if "dep" in r else "other"),
-                        "%s is written to the depfile without `escape` (%s)" % (what, r), where)
+                        "%s is %s (%s)" % (what, how_txt, r), where)
         if "target" in kinds:
             i = kinds.index("target")
             ok = pieces[i] == "" and pieces[i + 1].startswith(":") and not in_loop and not b.guards(root)
@@ -1114,7 +1125,7 @@ CARGO = {"header_file": "cargo:rerun-if-changed=", "include_file": "cargo:rerun-
          "read_env_var": "cargo:rerun-if-env-changed="}
 
 
-@RULES.rule("R17.4", "CargoCallbacks prints one `cargo:rerun-if-*=<x>` line per notification", floor=10)
+@RULES.rule("R17.4", "CargoCallbacks prints one `cargo:rerun-if-*=<x>` line per notification", floor=16)
 def r17_4(rep):
     """Necessary: cargo only understands `cargo:rerun-if-changed=PATH` / `cargo:rerun-if-env-changed=VAR`
     on a line of its own on the build script's stdout.  Breaking edits: `print!` instead of
